@@ -42,11 +42,13 @@ except OSError:
     log = ""
 status["log"] = log[-6000:]
 
+import glob
 props_file = os.path.join(lean, "Uniflow", "Props", prop + ".lean")
+props_files = sorted(glob.glob(os.path.join(lean, "Uniflow", "Props", prop + "*.lean")))
 names = []
-if os.path.exists(props_file):
-    body = strip_comments(open(props_file).read())
-    names = re.findall(r"^theorem\s+(" + prop + r"\.[A-Za-z0-9_'.]+)", body, re.M)
+for pf in props_files:
+    body = strip_comments(open(pf).read())
+    names += re.findall(r"^theorem\s+(" + prop + r"\.[A-Za-z0-9_'.]+)", body, re.M)
 
 # forbidden constructs anywhere in the project sources
 bad = []
@@ -67,7 +69,8 @@ if status["props_built"] and names:
     os.makedirs(os.path.join(verif, ".build", "audit"), exist_ok=True)
     af = os.path.join(verif, ".build", "audit", prop + ".lean")
     with open(af, "w") as fh:
-        fh.write(f"import Uniflow.Props.{prop}\n")
+        for pf in props_files:
+            fh.write("import Uniflow.Props." + os.path.basename(pf)[:-5] + "\n")
         for n in names:
             fh.write(f"#print axioms {n}\n")
     r = subprocess.run(["lake", "env", "lean", af], cwd=lean, capture_output=True, text=True)
@@ -98,13 +101,13 @@ else:
         status["theorems"].append({"name": n, "axioms": ["?"], "ok": False})
     if not status["props_built"]:
         # name the theorems in which the errors occur (nearest preceding `theorem` line)
-        try:
-            lines = open(props_file).read().split("\n")
-        except OSError:
-            lines = []
         seen = set()
-        for m in re.finditer(r"Props/" + prop + r"\.lean:(\d+):\d+", log):
-            ln = int(m.group(1))
+        for m in re.finditer(r"Props/(" + prop + r"[A-Za-z]*)\.lean:(\d+):\d+", log):
+            ln = int(m.group(2))
+            try:
+                lines = open(os.path.join(lean, "Uniflow", "Props", m.group(1) + ".lean")).read().split("\n")
+            except OSError:
+                lines = []
             for i in range(min(ln, len(lines)) - 1, -1, -1):
                 mm = re.match(r"theorem\s+(\S+)", lines[i])
                 if mm:
